@@ -176,7 +176,7 @@ def check(ctx):
     ctx.trusted = ["rustc type checker / MIR construction / trait resolution (Instance::try_resolve)",
                    "core's PartialEq/PartialOrd/Ord/Hash/Debug impls for [T]"]
     ctx.assumptions = ["formatted text and comparison results are those of the [T] impls (not re-derived)"]
-    cfgs = ["F0", "F1"] if ctx.tier == "quick" else ["F0", "F1", "F2"]
+    cfgs = ["F0", "F1", "F1N"] if ctx.tier == "quick" else ["F0", "F1", "F1N", "F2", "F0N", "F2N"]
     ctx.need(*cfgs)
     n = 0
     for cfg in cfgs:
